@@ -123,6 +123,11 @@ theorem stop_returns_when_done (budget : Nat) (ds : List Nat) (el : Nat) (h : el
     mode), and store operations of an abandoned run cannot interleave with a new one. -/
 theorem runs_do_not_overlap_shape : Gen.startRefusedWhileWindingDown = true := by decide
 
+/-- The stop calls end the run atomically (regenerated fact): the context is cancelled, the flag lowered and STOPPED
+    recorded inside one critical section, in that order — the model's single `api stop` step.  An acquisition whose
+    answer arrives after that section finds the run over (`becomeLeaderRefusesWhenStopped`). -/
+theorem stop_is_atomic_shape : Gen.stopCancelsInsideItsCriticalSection = true := by decide
+
 /-- The source has that structure (regenerated facts): one deadline, every wait under it, the deletion issued from a
     goroutine; 5 s for `Stop` and as the default of `StopWithContext`. -/
 theorem stop_budget_shape : Gen.stopWaitsShareDeadline = true ∧ Gen.stopDeleteAsync = true ∧
